@@ -1,4 +1,5 @@
 import PytaskProofs.Lemmas.EngineScratch
+import PytaskProofs.Lemmas.EngineExample
 /-!
 # C02 — an incremental build leaves what a from-scratch build would leave
 
@@ -170,5 +171,31 @@ theorem C02_vs_fresh_build (F : BodyFn) (P : Project) (cfg cfg' : Cfg) (w w' : W
     · exact (graphOK_of_createDag hwf hdag).uniqueProducer
   have := scratch_functional hwf huniq (scratch_congr hwf hinputs hs) v' hs'
   rw [hv, hv', this]
+
+/-! ## non-vacuity (project `exP`: input 10 → task 0 → 20 → task 1 → 21, 22; see `Lemmas/EngineExample.lean`) -/
+
+/-- A real history: first build, edit of the input, second build, edit of task 1's module. The
+hypotheses of `C02_success` hold for the third (incremental) build of that history — task 0 is
+reported unchanged, task 1 runs — so all three products hold their from-scratch contents … -/
+example : ∀ t ∈ exP.tasks, ∀ p i, (p, i) ∈ t.prods.zipIdx →
+    ∃ v, lookup exR3.w.fs p = some v ∧ Scratch exF exP exR3.w.fs p v := by
+  have exHistory3 : History exF exP exW3 :=
+    History.edit _ (History.build {} [0, 1] exR2
+      (History.edit _ (History.build {} [0, 1] exR1 (History.init _) exBuild1)) exBuild2)
+  refine C02_success exF exP {} exW3 [0, 1] exR3 exWF exBT exHistory3 exBuild3 rfl ?_
+  intro u hu
+  rcases mem_exP hu with rfl | rfl
+  · exact ⟨rfl, Or.inr (by decide)⟩
+  · exact ⟨rfl, Or.inl (by decide)⟩
+
+/-- … which are these concrete numbers (input 6, modules 1 and 3). -/
+example : lookup exR3.w.fs 20 = some 7 ∧ lookup exR3.w.fs 21 = some 1010 ∧ lookup exR3.w.fs 22 = some 1110 := by
+  decide
+
+/-- `C02_equiv_build` on the third build: task 0 was reported unchanged, so its rows matched. -/
+example : ∃ (g : G) (s1 : Sess), RowsMatch exP g s1.w 0 := by
+  obtain ⟨_, g, _, _, _, _, _, s1, _, _, _, _, h⟩ :=
+    C02_equiv_build exF exP {} exW3 [0, 1] exR3 0 exBuild3 (by decide)
+  exact ⟨g, s1, h⟩
 
 end Pytask
